@@ -299,6 +299,10 @@ pub fn build(m: &Model, opts: SolverOptions, upto: usize, tagged: bool, named: b
     let mut solver = Solver::with_options(opts);
     let xs = new_vars(&mut solver, m, 0, named);
     let mut post_err = None;
+    // Tags only label constraints (for proofs and the event judges), but `with_tag(..)` is a posting path
+    // of its own for `post`, `implied_by` and `reify`: a third of the models takes it also where the
+    // property at hand does not need tags.
+    let tagged = tagged || m.fingerprint() % 3 == 0;
     for (i, c) in m.cons.iter().enumerate().take(upto) {
         let tag = if tagged && c.0.taggable() { Some(i as u32 + 1) } else { None };
         if post_con(&mut solver, &xs, c, tag).is_err() {
